@@ -99,9 +99,22 @@ fn vocab_item(which: &str) -> Verdict {
             if !accepted {
                 return Verdict::Pass { nontrivial: false, labels: vec!["candidate-not-an-operator"] };
             }
-            let offered: BTreeSet<String> = complete("!", 1, Some("!")).into_iter().map(|c| c.label).collect();
-            if !offered.contains(word) {
-                return Verdict::Fail(Failure::new("C20.lexed-not-offered", format!("C20.lexed-not-offered:!{word}"), format!("the lexer accepts !{word} but it is not offered after '!'")));
+            // after a fresh `!`, after a `!` in value positions, and after a `!` typed in front of text
+            // that already spells an operator (the cursor sits between `!` and the name)
+            let value_ctx = "defvar x = !";
+            let before_name = format!("defvar x = !{word}(1, 2);");
+            let in_body = "def d { int v = !; }";
+            let contexts: [(&str, usize, &str); 4] = [
+                ("!", 1, "a fresh '!'"),
+                (value_ctx, value_ctx.len(), "'!' at the end of a defvar initialiser"),
+                (&before_name, "defvar x = !".len(), "'!' directly in front of the operator's own name"),
+                (in_body, "def d { int v = !".len(), "'!' in a field initialiser"),
+            ];
+            for (text, at, what) in contexts {
+                let offered: BTreeSet<String> = complete(text, at, Some("!")).into_iter().map(|c| c.label).collect();
+                if !offered.contains(word) {
+                    return Verdict::Fail(Failure::new("C20.lexed-not-offered", format!("C20.lexed-not-offered:!{word}"), format!("the lexer accepts !{word} but it is not offered after {what} ({text:?} at {at})")));
+                }
             }
             Verdict::pass(true)
         }
@@ -207,7 +220,7 @@ impl Property for C20 {
         "C20"
     }
     fn rule(&self) -> String {
-        "exhaustive over the finite vocabularies: every item Analysis::completion offers in the four contexts (file level `c|`, type position `class Foo<i|`, value position `class Foo<int a = t|`, after `!` with the trigger character) must lex (server's own lexer) to exactly one keyword/type/operator token - never Id or Error -, every file-level keyword must not hit the statement-dispatch error and its minimal statement must parse with zero errors; every operator spelling the lexer accepts after `!` (candidates: all string literals of lexer.rs + the reference operator list) must be offered. Class completion: generated workspaces (1..6 classes with 0..3 template parameters of seven types, each without default or with a type-correct default (literal, ?, operator, an earlier int parameter, a bit or bit range of one); root + included file, redefinitions) x every parent-class position x 0..3 typed characters: labels = exactly the classes of the workspace, one ${n} placeholder per template parameter; the same at a parent-class position appended to generated (SEM) programs, whose classes and parameter counts are known by construction. distinct = vocabulary item spelling / digest of class case; non-trivial = every vocabulary item, class cases with >=2 classes".into()
+        "exhaustive over the finite vocabularies: every item Analysis::completion offers in the four contexts (file level `c|`, type position `class Foo<i|`, value position `class Foo<int a = t|`, after `!` with the trigger character) must lex (server's own lexer) to exactly one keyword/type/operator token - never Id or Error -, every file-level keyword must not hit the statement-dispatch error and its minimal statement must parse with zero errors; every operator spelling the lexer accepts after `!` (candidates: all string literals of lexer.rs + the reference operator list) must be offered - after a fresh '!', after a '!' in two value positions, and after a '!' typed directly in front of the operator's own name. Class completion: generated workspaces (1..6 classes with 0..3 template parameters of seven types, each without default or with a type-correct default (literal, ?, operator, an earlier int parameter, a bit or bit range of one); root + included file, redefinitions) x every parent-class position x 0..3 typed characters: labels = exactly the classes of the workspace, one ${n} placeholder per template parameter; the same at a parent-class position appended to generated (SEM) programs, whose classes and parameter counts are known by construction. distinct = vocabulary item spelling / digest of class case; non-trivial = every vocabulary item, class cases with >=2 classes".into()
     }
     fn families(&self, ctx: &Ctx) -> Vec<Family> {
         vec![
